@@ -197,14 +197,18 @@ def _find_changed_types(old: Schema, new: Schema) -> Iterator[SchemaChange]:
 
 def _diff_union_types(old: Schema, new: Schema) -> Iterator[SchemaChange]:
     for old_union, new_union in _iterate_matching_pairs(old, new, UnionType):
-        old_type_names = set(t.name for t in old_union.types)
-        new_type_names = set(t.name for t in new_union.types)
+        # Lists (not sets) so that changes come out in declaration order
+        # whatever the hash seed.
+        old_type_names = [t.name for t in old_union.types]
+        new_type_names = [t.name for t in new_union.types]
 
-        for t in old_type_names - new_type_names:
-            yield TypeRemovedFromUnion(t, old_union)
+        for t in old_type_names:
+            if t not in new_type_names:
+                yield TypeRemovedFromUnion(t, old_union)
 
-        for t in new_type_names - old_type_names:
-            yield TypeAddedToUnion(t, new_union)
+        for t in new_type_names:
+            if t not in old_type_names:
+                yield TypeAddedToUnion(t, new_union)
 
 
 def _diff_enum_types(old: Schema, new: Schema) -> Iterator[SchemaChange]:
@@ -242,14 +246,13 @@ def _diff_directives(old: Schema, new: Schema) -> Iterator[SchemaChange]:
         except KeyError:
             yield DirectiveRemoved(old_directive)
         else:
-            old_locs = set(old_directive.locations)
-            new_locs = set(new_directive.locations)
+            for loc in old_directive.locations:
+                if loc not in new_directive.locations:
+                    yield DirectiveLocationRemoved(old_directive, loc)
 
-            for loc in old_locs - new_locs:
-                yield DirectiveLocationRemoved(old_directive, loc)
-
-            for loc in new_locs - old_locs:
-                yield DirectiveLocationAdded(old_directive, loc)
+            for loc in new_directive.locations:
+                if loc not in old_directive.locations:
+                    yield DirectiveLocationAdded(old_directive, loc)
 
             for d in _diff_directive_arguments(old_directive, new_directive):
                 yield d
